@@ -137,10 +137,18 @@ pub fn gen_program(r: &mut Rng, directed_permille: usize, hammer_permille: usize
             COp::ShrinkTo(0),
             COp::ShrinkTo(17),
             COp::ShrinkTo(len + 3),
+            // the sites whose in-place branch writes over, moves or frees bytes the other thread may
+            // just have read are drawn twice as often: only there does a look that fails to
+            // synchronise with the release become a conflicting pair of accesses
+            COp::Insert(0, 'j'),
+            COp::Remove(0),
+            COp::Retain(6),
+            COp::ShrinkTo(0),
+            COp::Reserve(41),
         ];
         let op = sites[r.below(sites.len())].clone();
         let mut giver = vec![COp::DropH0];
-        if r.chance(1, 2) {
+        if r.chance(3, 4) {
             giver.insert(0, COp::Read);
         }
         // without a pause the operation's look at the count always comes first (nothing precedes it)
